@@ -16,8 +16,10 @@ RULE = ("live runs (log mode) of SelfCGA, SelfCGP, PDPGA, PDPGP over operator su
         "distinct = (run, generation).")
 ASSUMPTIONS = ["thresholds > 0 and z*threshold <= 1", "objective values finite",
                "ties of group means / draws within 2^-40 of a cumulative boundary are not distinguished"]
-TRUSTED = ["models: coq/theories/SelfConf.v; checkers C14Check.v; mirror log mode for the draws of _choice_operators"]
-THEORIES = ["Base", "RandomPrims", "RandomPrimsProofs", "SelfConf", "SelfConfProofs", "C11Check", "C07Check", "C14Check"]
+TRUSTED = ["models: coq/theories/SelfConf.v; checkers C14Check.v; mirror log mode for the draws of _choice_operators",
+           "code translator harness/translate_code.py + coq/theories/Py.v: SelfCGA._get_new_proba (dict = value list in key order, key = position) proved == selfc_new_proba (theories/CodeEqC14.v)"]
+THEORIES = ["Base", "RandomPrims", "RandomPrimsProofs", "SelfConf", "SelfConfProofs", "C11Check", "C07Check", "C14Check",
+            "Py", "PyLemmas", "GenCode", "Adapt", "AdaptProofs", "CodeEqC07", "CodeEqC11", "CodeEqC15", "CodeEqAdapt", "CodeEqC14"]
 IMPORTS = "From TF Require Import Base RandomPrims SelfConf C11Check C07Check C14Check."
 
 GA_S = ["proportional", "rank", "tournament_3", "tournament_5", "tournament_7", "tournament_k"]
@@ -79,6 +81,12 @@ def picks(p, us):
 
 def close(a, b, tol=1e-9):
     return len(a) == len(b) and all(abs(x - y) <= tol * (1 + abs(x)) for x, y in zip(a, b))
+
+
+def gen(ctx):
+    """(T) the SelfC* update rule is translated from optimizers/_selfcga.py on every run; fail closed"""
+    import translate_code as TC
+    TC.ensure(TC.C14_METHODS)
 
 
 def run(ctx, rep):
